@@ -30,6 +30,12 @@ def gen_case(rng):
     ds = gen.make_dataset(rng, clim=rng.random() < 0.3, prob=(kind == "prob"), ens=(kind == "ens"),
                           pit=(kind in ("pit", "prob")), some_without_obs=rng.random() < 0.4,
                           members=rng.randint(1, 5))
+    if kind == "prob" and rng.random() < 0.5:
+        # independently estimated threshold probabilities may cross (P(x<=hi) < P(x<=lo)): still the same case set
+        for inp in ds["inputs"]:
+            for c in inp["cells"].values():
+                if c.get("p") and len(c["p"]) >= 2 and None not in c["p"] and rng.random() < 0.2:
+                    c["p"] = list(reversed(c["p"]))
     sel = {}
     if rng.random() < 0.5:
         # selection options in force (-d/-tod/-t/-o/-l/...): the case sets must stay identical across inputs
@@ -203,6 +209,66 @@ def run_case(case, ctx):
         ctx.case("%d|%s|%s|whole-array" % (F, bool(cpath), fmts), F >= 2)
     else:
         ctx.count("whole_array_checks", 0)
+
+    # metric-entry ledger: how many cases enter a probabilistic score, per input (a score must not drop cases on its own)
+    if kind == "prob":
+        import verif.metric
+        import verif.util
+        ledger = {}
+        orig_p, orig_q = verif.metric.get_p, verif.metric.get_q
+
+        def spy_p(data_, input_index, axis_, axis_index, interval):
+            r = orig_p(data_, input_index, axis_, axis_index, interval)
+            ledger.setdefault(("p", axis_.name(), axis_index, float(interval.lower), float(interval.upper)), {})[input_index] = (len(r[0]), len(r[1]))
+            return r
+
+        def spy_q(data_, input_index, axis_, axis_index, interval):
+            r = orig_q(data_, input_index, axis_, axis_index, interval)
+            ledger.setdefault(("q", axis_.name(), axis_index, float(interval.lower), float(interval.upper)), {})[input_index] = (len(r[0]), len(r[1]))
+            return r
+        th, qs = ds["inputs"][0]["thresholds"], ds["inputs"][0]["quantiles"]
+        verif.metric.get_p, verif.metric.get_q = spy_p, spy_q
+        try:
+            data = vutil.build_data(paths, cpath, opts)
+            for axis in ("no", "leadtime", "location", "time"):
+                vax = vutil.vaxis(axis)
+                reqs = [("bs", "above", [th[0]]), ("bs", "below=", [th[-1]]), ("ign0", "above=", [th[0]])]
+                if len(th) >= 2:
+                    reqs += [("bs", "within", [th[0], th[-1]]), ("bsrel", "=within", [th[0], th[1]])]
+                for mname, b, ts in reqs:
+                    iv = verif.util.get_intervals(b, np.array(ts))[0]
+                    two = len(ts) == 2
+                    for k in range(F):
+                        try:
+                            verif.metric.get(mname).compute(data, k, vax, iv)
+                        except SystemExit:
+                            continue
+                    flds = [("obs",), ("thr", ts[0])] + ([("thr", ts[1])] if two else [])
+                    try:
+                        want = [[len(s_[1]) for s_ in refmodel.slices(ds, k, flds, axis, opts)] for k in range(F)]
+                    except KeyError:
+                        continue
+                    lo, hi = float(iv.lower), float(iv.upper)
+                    for idx in range(len(want[0])):
+                        got = ledger.get(("p", vax.name(), idx, lo, hi), {})
+                        ctx.count("metric_entry_ledger_checks")
+                        ns = [got.get(k) for k in range(F)]
+                        if any(n is None for n in ns):
+                            continue
+                        if len(set(ns)) > 1 or any(n[0] != n[1] for n in ns) or any(n[0] != max(want[k][idx], 0) for k, n in enumerate(ns) if want[k][idx] > 0):
+                            ctx.violation("cases-entering-score-differ", "-m %s -b %s -r %s axis %s slice %d: cases entering the score per input "
+                                          "(obs, p) = %s, common valid cases %s" % (mname, b, ts, axis, idx, ns, [w[idx] for w in want]), case)
+                for k in range(F):
+                    try:
+                        verif.metric.get("quantilescore").compute(data, k, vax, verif.util.get_intervals("above", np.array([qs[0]]))[0])
+                    except SystemExit:
+                        pass
+                for key, got in ledger.items():
+                    if key[0] == "q" and len(got) == F and len(set(got.values())) > 1:
+                        ctx.violation("cases-entering-score-differ", "quantilescore %s: cases per input %s" % (key, got), case)
+        finally:
+            verif.metric.get_p, verif.metric.get_q = orig_p, orig_q
+        ctx.case("%d|%s|%s|metric-entry-ledger" % (F, bool(cpath), fmts), F >= 2)
 
     # csv level: -agg count equals reference counts; metamorphic perturbation of another input
     if all("fcst" in i["has"] for i in ds["inputs"]):
